@@ -23,7 +23,7 @@ FORWARD = re.compile(
     r'|convert::Into::into$|convert::From::from$|convert::TryFrom::try_from$|convert::TryInto::try_into$'
     r'|ToPrimitive::to_[a-z0-9]+$|FromPrimitive::from_[a-z0-9]+$|NumCast::from$'
     r'|clone::Clone::clone$|borrow::ToOwned::to_owned$|ops::Deref::deref$|ops::DerefMut::deref_mut$|borrow::Borrow::borrow$|convert::AsRef::as_ref$'
-    r'|::checked_add$|::checked_sub$|::checked_mul$|::checked_neg$|::saturating_add$|::saturating_sub$|::wrapping_add$|::wrapping_sub$'
+    r'|::checked_add$|::checked_sub$|::checked_mul$|::checked_neg$|::checked_abs$|::unsigned_abs$|::saturating_add$|::saturating_sub$|::wrapping_add$|::wrapping_sub$'
     r'|ops::Add::add$|ops::Sub::sub$|ops::Mul::mul$|ops::Neg::neg$|ops::Div::div$|ops::Rem::rem$'
     r'|cmp::max$|cmp::min$|cmp::Ord::max$|cmp::Ord::min$|cmp::Ord::cmp$|cmp::PartialOrd::partial_cmp$'
     r'|cmp::PartialEq::eq$|cmp::PartialEq::ne$|cmp::PartialOrd::lt$|cmp::PartialOrd::le$|cmp::PartialOrd::gt$|cmp::PartialOrd::ge$'
